@@ -105,3 +105,21 @@ Section Proofs3.
       pose proof (wmatrix_hermitian n p w Hw r c Hr Hc) as E. unfold madj in E. rewrite E. reflexivity.
   Qed.
 End Proofs3.
+
+(** set_pauli changes exactly one site *)
+Lemma upd_length l i v : length (upd l i v) = length l.
+Proof. revert i; induction l as [|x l IH]; intros [|i]; cbn; auto. Qed.
+Lemma nth_upd l : forall i j v, (i < length l)%nat ->
+  nth j (upd l i v) false = if Nat.eqb i j then v else nth j l false.
+Proof.
+  induction l as [|x l IH]; intros [|i] [|j] v H; cbn in *; try lia; try reflexivity.
+  apply IH. lia.
+Qed.
+Theorem set_pauli_spec n p zv xv i : wfp n p -> (i < n)%nat ->
+  wfp n (set_pauli p zv xv i) /\ pq (set_pauli p zv xv i) = pq p /\
+  forall j, get_pauli (set_pauli p zv xv i) j = if Nat.eqb i j then (zv, xv) else get_pauli p j.
+Proof.
+  intros [Hz Hx] Hi. split; [split; cbn; rewrite upd_length; assumption|]. split; [reflexivity|].
+  intros j. unfold get_pauli, set_pauli. cbn [pz px]. rewrite !nth_upd by lia.
+  destruct (Nat.eqb i j); reflexivity.
+Qed.
